@@ -282,7 +282,7 @@ var purePrefixes = []string{
 	"(error).", "net/http.StatusText", "net/http.NewRequestWithContext", "net/http.NewRequest", "(io.Closer).Close", "(io.ReadCloser).Close", "(*strings.Builder).", "regexp.", "(*regexp.Regexp).", "os.Getenv", "encoding/json.Marshal", "encoding/json.Valid",
 	"(*github.com/thushan/olla/internal/adapter/stats.", "github.com/thushan/olla/internal/util.", "github.com/thushan/olla/internal/version.", "(reflect.", "reflect.",
 	"(*github.com/json-iterator/go.", "github.com/json-iterator/go.", "github.com/tidwall/gjson.", "(github.com/tidwall/gjson.Result).",
-	"(*sync.WaitGroup).", "(*sync.Pool).", "(*net/http.Request).Context", "(*net/http.Request).WithContext", "(*net/http.Request).UserAgent", "github.com/thushan/olla/internal/app/middleware.GetLogger", "github.com/thushan/olla/internal/app/middleware.GetRequestID", "github.com/thushan/olla/internal/app/middleware.FormatBytes", "(*github.com/thushan/olla/pkg/pool.Pool).", "(*golang.org/x/time/rate.Reservation).OK", "(*golang.org/x/time/rate.Reservation).Delay", "golang.org/x/time/rate.NewLimiter", "runtime.", "(*time.Timer).", "(*time.Ticker).", "io.", "(*bytes.Buffer).", "(*bytes.Reader).",
+	"(*sync.WaitGroup).", "(*sync.Pool).", "(*sync.Map).", "bufio.", "(*bufio.Scanner).", "(*bufio.Reader).", "net/http.NewResponseController", "(*net/http.Request).Context", "(*net/http.Request).WithContext", "(*net/http.Request).UserAgent", "github.com/thushan/olla/internal/app/middleware.GetLogger", "github.com/thushan/olla/internal/app/middleware.GetRequestID", "github.com/thushan/olla/internal/app/middleware.FormatBytes", "(*github.com/thushan/olla/pkg/pool.Pool).", "(*golang.org/x/time/rate.Reservation).OK", "(*golang.org/x/time/rate.Reservation).Delay", "golang.org/x/time/rate.NewLimiter", "runtime.", "(*time.Timer).", "(*time.Ticker).", "io.", "(*bytes.Buffer).", "(*bytes.Reader).",
 }
 
 func (u *Unit) isPure(fn *types.Func) bool {
@@ -1329,6 +1329,16 @@ func (u *Unit) callAsserts(st *State, x *ast.CallExpr) {
 		env := u.specEnvLocal(st, x.Pos(), 0)
 		env.what = u.name + " at call " + key
 		g, q := u.evalSpecBool(st, ca.E, env, false)
+		if ca.Assume {
+			// an explicit assumption about the input at this point (listed in the evidence, never counted as proved)
+			u.trusted["assumption at call "+key+" in "+u.name+": "+ca.E.String()] = true
+			u.oblige(st, fmt.Sprintf("at-call(%s).assume.%d", key, ca.N), "call-assume", "assumed: "+ca.E.String(), "true", false)
+			if cutStart < 0 {
+				cutStart = len(st.pc)
+			}
+			st.assume(g)
+			continue
+		}
 		if cutStart >= 0 && st.entryLen > 0 && st.entryLen <= cutStart {
 			// a later assertion of the same site is first attempted from the entry facts and the assertions
 			// already proved here alone (a proof from fewer hypotheses is a proof)
